@@ -51,7 +51,8 @@ def load():
     import pywbem
     import pywbem._listener as real_listener
     sh_threading = shims.shim_module(
-        _threading, Thread=shims.SimThread, Event=shims.SimEvent)
+        _threading, Thread=shims.SimThread, Event=shims.SimEvent,
+        Lock=shims.SimLock, RLock=shims.SimRLock)
     sh_queue = shims.shim_module(_queue, Queue=shims.SimQueue)
     sh_socket = shims.shim_module(
         _socket, socket=net.FakeListenSocket, getaddrinfo=net.getaddrinfo,
@@ -321,7 +322,18 @@ def run_world(plan, keep_log=False):
                     data = data[:va]
                 npieces = max(1, int(m.get('pieces', 1)))
                 step = max(1, -(-len(data) // npieces))
+                rec['t_sent'] = sch.now
                 try:
+                    st = m.get('stall')
+                    if st:
+                        # a slow / stalled sender: part of the request, a
+                        # long silence, then the rest
+                        cut = min(len(data), max(0, st['after']))
+                        if cut:
+                            c.send(data[:cut])
+                        ev('stall', sender=si, msg=mi)
+                        sch.sleep(st['secs'])
+                        data = data[cut:]
                     for off in range(0, len(data), step):
                         c.send(data[off:off + step])
                     if va is not None:
@@ -345,6 +357,7 @@ def run_world(plan, keep_log=False):
                         raw, how = bytes(c.s2c), 'reset'
                 rec['how'] = how
                 rec['raw'] = raw
+                rec['t'] = sch.now
                 rec['accepted'] = c.accepted
                 rec['seq'] = ev('resp', sender=si, msg=mi, how=how,
                                 n=len(raw))
